@@ -9,6 +9,8 @@ import fcntl, hashlib, json, os, random, re, shutil, subprocess, sys, tempfile, 
 from concurrent.futures import ThreadPoolExecutor
 
 VERIF = os.path.dirname(os.path.dirname(os.path.abspath(__file__)))
+# evidence and replays go to VERIF unless redirected (used when checks run against a scratch tree of seeded changes)
+OUT = os.environ.get("VERIF_OUT", VERIF)
 sys.path.insert(0, os.path.join(VERIF, "tools"))
 import cmrbuild
 
@@ -432,7 +434,7 @@ def judge_lines(lines, flavour, args):
 
 
 def write_replay(pid, op, result, verdict, flavour, args, extra=None):
-    d = os.path.join(VERIF, "replays", pid)
+    d = os.path.join(OUT, "replays", pid)
     os.makedirs(d, exist_ok=True)
     h = hashlib.sha1((op + flavour).encode()).hexdigest()[:12]
     path = os.path.join(d, h + ".ops")
@@ -474,7 +476,7 @@ def finish(run, proof, level_note, rule, extra_cov=None, assumptions=None):
     pid = run.pid
     rc = 0
     out_lines = []
-    shutil.rmtree(os.path.join(VERIF, "replays", pid), ignore_errors=True)
+    shutil.rmtree(os.path.join(OUT, "replays", pid), ignore_errors=True)
     for (op, result, verdict, flavour, args) in run.failures[:8]:
         log("  FAILURE %s\n      impl : %s\n      judge: %s" % (op[:300], result[:300], verdict[:300]))
     # 1. correspondence failures -> shrink, replay, VIOLATION
@@ -501,7 +503,7 @@ def finish(run, proof, level_note, rule, extra_cov=None, assumptions=None):
     # 2. proof obligations
     if proof is not None and not proof["ok"]:
         if rc == 0:
-            d = os.path.join(VERIF, "replays", pid)
+            d = os.path.join(OUT, "replays", pid)
             os.makedirs(d, exist_ok=True)
             path = os.path.join(d, "proof-obligation.txt")
             with open(path, "w") as f:
@@ -534,8 +536,8 @@ def finish(run, proof, level_note, rule, extra_cov=None, assumptions=None):
         "property_id": pid, "tier": run.tier, "seed": run.seed, "level": "proof", "coverage": cov,
         "assumptions": assumptions or [], "wall_s": round(time.time() - run.t0, 1), "violations": len(run.failures) + (0 if (proof is None or proof["ok"]) else 1),
     }
-    os.makedirs(os.path.join(VERIF, "evidence"), exist_ok=True)
-    with open(os.path.join(VERIF, "evidence", pid + ".json"), "w") as f:
+    os.makedirs(os.path.join(OUT, "evidence"), exist_ok=True)
+    with open(os.path.join(OUT, "evidence", pid + ".json"), "w") as f:
         json.dump(ev, f, indent=1)
     for l in out_lines:
         print(l)
